@@ -69,7 +69,7 @@ var c11Cfg = GenCfg{
 	MinBlocks: 4, MaxBlocks: 24, MinOps: 8, MaxOps: 50,
 	W: map[string]int{"write": 30, "snap": 24, "remove": 16, "markrm": 8, "setcp": 6, "rmdirect": 4,
 		"reopen": 4, "revert": 2, "punch": 1, "mode": 2, "read": 2},
-	PunchStart: 40, MaxChainMin: 7, MaxChainMax: 12, AllowWO: true,
+	PunchStart: 40, MaxChainMin: 7, MaxChainMax: 12, AllowWO: true, DupNamePct: 20,
 }
 
 func c11Nontrivial(p Program, e *Engine) bool {
